@@ -502,7 +502,7 @@ func checkC15(c *hx.Checker) {
 	for _, name := range names {
 		op, err := opset13.GetOperator(name)
 		if err != nil {
-			c.Record(hx.CaseInfo{ID: "lookup/" + name, NonTrivial: true}, "refused", &hx.Violation{Kind: "refused", Detail: "GetOpNames entry does not resolve: " + err.Error(), Replay: map[string]any{"replay_kind": "gate", "op": name, "dtypes": []string{}}})
+			c.Note(hx.CaseInfo{ID: "lookup/" + name, NonTrivial: true}, "refused", &hx.Violation{Kind: "refused", Detail: "GetOpNames entry does not resolve: " + err.Error(), Replay: map[string]any{"replay_kind": "gate", "op": name, "dtypes": []string{}}})
 			continue
 		}
 		max := op.GetMaxInputs()
